@@ -1,0 +1,44 @@
+// This Source Code Form is subject to the terms of the Mozilla Public
+// License, v. 2.0. If a copy of the MPL was not distributed with this
+// file, You can obtain one at http://mozilla.org/MPL/2.0/.
+
+//go:build verif
+
+// Package verifhooks re-exports internal packages of the controller runtime for external verification harnesses.
+//
+// It is compiled only with the 'verif' build tag and contains aliases and forwarding functions only.
+package verifhooks
+
+import (
+	"github.com/cosi-project/runtime/pkg/controller/runtime/internal/cache"
+	"github.com/cosi-project/runtime/pkg/controller/runtime/internal/dependency"
+	"github.com/cosi-project/runtime/pkg/controller/runtime/internal/qruntime/verifhook"
+	"github.com/cosi-project/runtime/pkg/controller/runtime/options"
+)
+
+// Queue is the internal reconcile queue.
+type Queue[K comparable, V any] = verifhook.Queue[K, V]
+
+// QueueItem is an item handed out by the queue.
+type QueueItem[K comparable, V any] = verifhook.Item[K, V]
+
+// NewQueue creates a new reconcile queue.
+func NewQueue[K comparable, V any]() *Queue[K, V] {
+	return verifhook.NewQueue[K, V]()
+}
+
+// ResourceCache is the runtime read cache.
+type ResourceCache = cache.ResourceCache
+
+// NewResourceCache creates a read cache for the given kinds.
+func NewResourceCache(resources []options.CachedResource) *ResourceCache {
+	return cache.NewResourceCache(resources)
+}
+
+// DependencyDatabase is the controller dependency database.
+type DependencyDatabase = dependency.Database
+
+// NewDependencyDatabase creates a dependency database.
+func NewDependencyDatabase() (*DependencyDatabase, error) {
+	return dependency.NewDatabase()
+}
